@@ -82,6 +82,7 @@ macro_rules! dispatch {
             "C12" => $f(&props::c12::C12 $(, $arg)*),
             "C10" => $f(&props::c10::C10 $(, $arg)*),
             "C20" => $f(&props::c20::C20 $(, $arg)*),
+            "C11" => $f(&props::c11::C11 $(, $arg)*),
             other => {
                 eprintln!("unknown property {}", other);
                 3
